@@ -396,9 +396,25 @@ def heartbeat_scenarios():
         return sent_down, sent_up_again, raised, forgot, started_again, sent2, resets2, policies, gaps
 
     (sent_down, sent_up_again, raised, forgot, started_again, sent2, resets2, policies, gaps), net, _ = vloop.run(main)
+    # a tick whose send is refused (the queue still holds ten messages buffered during an outage / the socket was closed)
+    survived = True
+    for exc_name in ("QueueOverflowError", "NotOpenError"):
+        async def refused(loop, net, exc_name=exc_name):
+            sock = _FakeSocket()
+            mgr = HB.HeartbeatManager(loop, sock, HB.HeartbeatConfig(message="HB", response_match=lambda m: m == "RESP"))
+            await mgr.start()
+            await asyncio.sleep(10.0)
+            sock.fail_next = getattr(S, exc_name)      # the tick at t = 300 is refused
+            await asyncio.sleep(1000.0)
+            alive = not mgr._heartbeat_tasks[0].done()
+            ticks = [round(t, 6) for t, *_ in sock.sent]
+            await mgr.stop()
+            return alive, ticks
+        (alive, ticks), _, _ = vloop.run(refused)
+        survived = survived and alive and ticks[:4] == [0.0, 300.0, 600.0, 900.0]
     out["while not connected no heartbeat is sent"] = sent_down == 0
     out["the heartbeat loop runs until cancelled, whatever the connection state (its loop test is constantly true)"] = sent_up_again >= 1
-    out["a heartbeat cycle always ends back at the loop head (nothing but cancellation ends the heartbeat task)"] = sent_up_again >= 1
+    out["a heartbeat cycle always ends back at the loop head (nothing but cancellation ends the heartbeat task)"] = sent_up_again >= 1 and survived
     out["while connected exactly one heartbeat is sent per cycle: the configured message with RETRY_CONNECTED"] = bool(policies) and all(p is S.RETRY_CONNECTED for p in policies)
     out["each cycle sleeps exactly the configured interval"] = all(abs(g - 300.0) < 1e-6 for g in gaps)
     out["stop raises nothing"] = raised is None
